@@ -2900,6 +2900,8 @@ def _is_full_slice(x):
 
 def mk_getitem(o, idx):
     """o[idx]; consecutive basic slicings of different axes compose: x[a:b][:, c:d] and x[:, c:d][a:b] are x[a:b, c:d]"""
+    if isinstance(idx, tuple) and len(idx) == 0:
+        return o            # x[()] is x (the scalar of a 0-d array, the array itself otherwise)
     a = o.single_atom() if isinstance(o, Rat) else None
     if isinstance(a, Fn) and a.name == "concat" and isinstance(idx, Rat) and len(a.args) == 2 and a.args[1] in (0, None) and \
             isinstance(a.args[0], tuple) and len(a.args[0]) == 2:
